@@ -16,6 +16,22 @@ CCORE = ["label", "image"]
 NCHOICES = 2
 
 
+class langs:
+    """context manager: run the grid with another language-tag alphabet (e.g. case variants of one name)"""
+
+    def __init__(self, tags):
+        self.tags = list(tags)
+
+    def __enter__(self):
+        global LANGS
+        self.saved = LANGS
+        LANGS = self.tags
+
+    def __exit__(self, *a):
+        global LANGS
+        LANGS = self.saved
+
+
 def cells(core=False):
     cols = CORE_COLS if core else COLS
     ccols = CCORE if core else CCOLS
@@ -54,7 +70,14 @@ def normalise(filled):
     return F
 
 
-def build(filled, deflang=None, delim="::", ref=False, second_select=True, deflang_arg=False):
+def _reversed_cells(row):
+    """same cells, translatable columns in the opposite left-to-right order (language columns before the unsuffixed twin)"""
+    fixed = {k: v for k, v in row.items() if k in ("type", "name", "list_name", "constraint", "required")}
+    rest = [(k, v) for k, v in row.items() if k not in fixed]
+    return {**fixed, **dict(rest[::-1])}
+
+
+def build(filled, deflang=None, delim="::", ref=False, second_select=True, deflang_arg=False, rev=False):
     F = normalise(filled)
     rows = []
     for i, (nm, ty) in enumerate(ROWS):
@@ -85,6 +108,9 @@ def build(filled, deflang=None, delim="::", ref=False, second_select=True, defla
                     v += " ${inner}"
                 ch[header(c, l, delim)] = v
         choices.append(ch)
+    if rev:
+        rows = [_reversed_cells(r) for r in rows]
+        choices = [_reversed_cells(c) for c in choices]
     wb = {"survey": rows, "choices": choices}
     kw = {}
     if deflang and not deflang_arg:
